@@ -81,7 +81,7 @@ def prog_to_desc(prog):
                         'ver': [1, 0, 0],
                         'svs': [{'name': s, 'ver': [1, 0, 0], 'vals': [{'name': n, 'ver': [1, 0, 0]} for n in ns]} for s, ns in sorted(svs.items())],
                         'refs': refs,
-                        'feedback': [],
+                        'feedback': [{'pkg': src.split('.')[0], 'alg': src.split('.')[1], 'gran': 'val', 'sv': v.split('.')[0], 'val': v.split('.')[1]} for src, v in sorted(prog.get('fb', {}).get(tag, []))],
                     }
                 ],
             }
@@ -154,9 +154,9 @@ def sampled_schedules(chk, name, algs, programs, maxrun, maxreload, rate, focus,
     return parse_scheds(res)
 
 
-def gen_focus_all(chk, programs, name='focus1t_all', maxrun=3, maxfault=0, spec='GenSpecFocus', targets=('T1',)):
+def gen_focus_all(chk, programs, name='focus1t_all', maxrun=3, maxfault=0, spec='GenSpecFocus', targets=('T1',), constraint=None):
     cfg = os.path.join(chk.work, f'{name}.cfg')
-    tlc.write_cfg(cfg, spec=spec, constants=consts(ALG3, programs, maxrun, 0, targets=list(targets), maxfault=maxfault), extra=['VIEW View', 'ACTION_CONSTRAINT Emit'])
+    tlc.write_cfg(cfg, spec=spec, constants=consts(ALG3, programs, maxrun, 0, targets=list(targets), maxfault=maxfault), extra=['VIEW View', 'ACTION_CONSTRAINT Emit'] + (['CONSTRAINT ' + constraint] if constraint else []))
     res = tlc.run('Sched_Gen.tla', cfg, workers=1, timeout=1800, out_file=os.path.join(chk.work, f'{name}.out'))
     if not res.ok:
         raise core.Machinery(f'generation {name} failed: {res.error or res.violated}')
@@ -353,6 +353,7 @@ def run(pid, tier, seed, replay=None):
     # 1. MC
     props = MC_PROPS[pid]
     chk.mc('mc3', 'Sched_MC.tla', dict(spec='Spec', constants=consts(ALG3, 'Programs3Alg', 3 if thorough else 2), **props))
+    chk.mc('mc3fb', 'Sched_MC.tla', dict(spec='Spec', constants=consts(ALG3, 'Programs3Fb', 2 if thorough else 1), extra=['CONSTRAINT RecBound'], **props))
     if thorough:
         chk.mc('mc3fault', 'Sched_MC.tla', dict(spec='Spec', constants=consts(ALG3, 'Programs3Alg', 2, maxfault=1), **props))
         chk.mc('mc3val', 'Sched_MC.tla', dict(spec='Spec', constants=consts(ALG3, 'Programs3Val', 2), **props))
@@ -372,6 +373,11 @@ def run(pid, tier, seed, replay=None):
     # the 2-request instance with one (quick) / two (thorough) such passes, maximal histories only
     faulty = leaves(gen_focus_all(chk, 'Programs3Focus' if thorough else 'Programs3Quick', name='fault1t_all', maxrun=2, maxfault=2 if thorough else 1))
     faulty += leaves(gen_focus_all(chk, 'Programs3Fault', name='fault1t_mixed', maxrun=2, maxfault=2 if thorough else 1))
+    # feedback declarations: a new fed-back value re-schedules its declarer (schedule.update "following feedback loop");
+    # the loop goes on for as long as the value keeps changing, bounded here by the number of completions
+    fbs = leaves(gen_focus_all(chk, 'Programs3Fb', name='fb1t_all', maxrun=2 if thorough else 1, constraint='RecBound'))
+    chk.counters['feedback_histories'] = len(fbs)
+    focus += fbs
     # two targets, three requests on the chain a -> b -> c with lean replies (nothing new / failure): release, withdrawal
     # and late results interleaved across targets; every maximal history (thorough) or a stratified sample (quick)
     lean = leaves(gen_focus_all(chk, 'ProgramsChain', name='lean2t_all', maxrun=3, spec='GenSpecLean', targets=TARGETS))
